@@ -80,7 +80,7 @@ def run_workers(ctx, cases, audit, tag, nworkers=12, limit=None):
     return traces
 
 
-def describe(t, reached):
+def describe(t, reached, confine=False):
     """Message only: what the first rejected event was (TLC has decided already)."""
     ev = t["ev"]
     e = ev[reached] if 0 <= reached < len(ev) else None
@@ -99,9 +99,15 @@ def describe(t, reached):
         if e["m"] == 0:
             return head + f"result labelled {e['path']!r} / {e['fn']!r} does not carry the path of any member"
         m = t["hdr"]["members"][e["m"] - 1]
+        if confine:
+            return head + (f"member {e['m']} ({m['kind']}, {m['nc']}) produced the result {e['path']!r} although members "
+                           f"of that kind must never produce results")
         return head + (f"result for member {e['m']} ({m['kind']}, {m['nc']}) filename={e['fn']!r} path={e['path']!r} "
                        f"digest-id={e['dg']} is not what the specification allows here (skip rule, order, "
                        f"duplicate, label or content differs from direct extraction {m['direct']})")
+    if confine and e["a"] in ("CNext", "CThrow") and e["out"] in ("stop", "raise"):
+        return head + (f"the generator finished ({e['out']} {e['exc']}) but the temporary directory was not removed "
+                       f"(no rmtree of the private directory before the generator ended; left={t['dbg']['left']})")
     if e["a"] in ("CNext", "CThrow") and e["out"] == "stop":
         return head + "generator ended although a member that must come out is missing"
     if e["a"] in ("CNext", "CThrow") and e["out"] == "raise":
@@ -175,7 +181,7 @@ def run(ctx):
                 ev.nontrivial((t["hdr"]["fmt"], tuple((m["kind"], m["nc"]) for m in t["hdr"]["members"]),
                                t["hdr"]["hist"]["t"], t["hdr"]["hist"]["k"]))
         else:
-            v.violation(what=describe(t, tv.reached), case={"hdr": t["hdr"], "variant": d["variant"], "names": d["names"]},
+            v.violation(what=describe(t, tv.reached, confine=True), case={"hdr": t["hdr"], "variant": d["variant"], "names": d["names"]},
                         observed=t["ev"][:40], where="archive_extractor.py:read_archive / sevenzip.py:extractall")
     ev.replayed(len(traces))
     for t in traces[:: max(1, len(traces) // 6)]:
